@@ -14,6 +14,7 @@ the window checks, nil-guard shape facts, tuning constants) through the model.
 -/
 import Uquic.Proofs.FlowMono
 import Uquic.Proofs.FlowOk
+import Uquic.Proofs.FlowAux
 
 set_option linter.unusedVariables false
 
@@ -31,10 +32,6 @@ theorem sender_within_credit {s : State} (h : Reach s) :
     s.conn.bytesSent ≤ s.conn.sendWindow := by
   have hi := h.inv
   exact ⟨fun st hst => ⟨(hi.streams st hst).bs0, (hi.streams st hst).bs⟩, hi.sent, hi.conn.bs⟩
-
-theorem resetOk_only_reset {s : State} {op : Op} (h : (step s op).2 = .resetOk) : op = .reset := by
-  cases op <;> simp only [step, stepT] at h
-  all_goals (first | rfl | (repeat' split at h) <;> simp at h)
 
 /-- MAX_STREAM_DATA / MAX_DATA frames — in any order, duplicated or stale — never decrease a send
     window: a frame sets it to the maximum of the old limit and the frame's value, and no other
@@ -239,24 +236,6 @@ def beyondLimits (st : Stream) (c : Base) (off : Int) : Prop :=
   off > st.base.highestReceived ∧
     (off > st.base.receiveWindow ∨ c.highestReceived + (off - st.base.highestReceived) > c.receiveWindow)
 
-/-- the outcome of `UpdateHighestReceived` in closed form (same case order as the Go code) -/
-def recvOutcome (st : Stream) (c : Base) (off : Int) (fin : Bool) : RecvOut :=
-  if st.receivedFinalOffset = true ∧ fin = true ∧ off ≠ st.base.highestReceived then .finalSize
-  else if st.receivedFinalOffset = true ∧ off > st.base.highestReceived then .finalSize
-  else if off = st.base.highestReceived then .ok
-  else if off < st.base.highestReceived then (if fin = true then .finalSize else .ok)
-  else if off > st.base.receiveWindow then .flowControl
-  else if c.highestReceived + (off - st.base.highestReceived) > c.receiveWindow then .flowControl
-  else .ok
-
-theorem recv_outcome (st : Stream) (c : Base) (off : Int) (fin : Bool) (now : Int) :
-    (st.updateHighestReceived c off fin now).2.2.1 = recvOutcome st c off fin := by
-  unfold Stream.updateHighestReceived Conn.incrementHighestReceived recvOutcome Base.checkFlowControlViolation
-  simp only [cmp, Uquic.Gen.Flowcontrol.violationCmpOp]
-  repeat' split
-  all_goals (simp [Base.startNewAutoTuningEpoch] at *)
-  all_goals (try omega)
-
 /-- **receiver_exact.** `UpdateHighestReceived` answers FLOW_CONTROL_ERROR iff the new highest
     offset exceeds the stream's receive window or makes the connection total exceed the connection's
     receive window (and the offset is consistent with the final size); it answers FINAL_SIZE_ERROR iff
@@ -406,22 +385,6 @@ theorem credit_conserved {s : State} (h : Reach s) :
   have hi := h.inv
   exact ⟨hi.read, fun st hst => ⟨(hi.streams st hst).br0, (hi.streams st hst).br⟩⟩
 
-theorem sumBy_le {f g : Stream → Int} {l : List Stream} (h : ∀ st ∈ l, f st ≤ g st) : sumBy f l ≤ sumBy g l := by
-  induction l with
-  | nil => simp
-  | cons a l ih =>
-    have h1 := h a (by simp)
-    have h2 := ih (fun st hst => h st (by simp [hst]))
-    simp only [sumBy_cons]; omega
-
-theorem sumBy_congr {f g : Stream → Int} {l : List Stream} (h : ∀ st ∈ l, f st = g st) : sumBy f l = sumBy g l := by
-  induction l with
-  | nil => simp
-  | cons a l ih =>
-    have h1 := h a (by simp)
-    have h2 := ih (fun st hst => h st (by simp [hst]))
-    simp only [sumBy_cons]; omega
-
 theorem credit_conserved_open {s : State} (h : ReachOk s) :
     s.conn.highestReceived = sumBy (·.base.highestReceived) s.streams ∧
     s.conn.bytesRead ≤ s.conn.highestReceived ∧
@@ -454,50 +417,6 @@ theorem abandon_credits_unread {s : State} (h : Reach s) {id : Nat} {st : Stream
 
 /-- connection.go always passes a function literal as `allowWindowIncrease` (regenerated fact). -/
 theorem conn_callback_never_nil : Uquic.Gen.Flowcontrol.connCallbackNeverNil = true := rfl
-
-theorem askAllow_nopanic (g : Bool) (allow : Option Bool) (d : Int) (h : g = true ∨ allow ≠ none) :
-    (Base.askAllow g allow d).2.2 = false := by
-  unfold Base.askAllow
-  cases allow <;> simp_all
-
-theorem maybeAdjust_nopanic (c : Base) (now rtt : Int) (allow : Option Bool) :
-    (c.maybeAdjustWindowSize now rtt allow).2.2 = false := by
-  have hq := fun d => askAllow_nopanic Uquic.Gen.Flowcontrol.adjustCallbackNilGuarded allow d (Or.inl rfl)
-  unfold Base.maybeAdjustWindowSize
-  simp only []
-  repeat' split
-  all_goals (first | rfl | skip)
-  rename_i heq
-  have := congrArg (fun t => t.2.2) heq
-  simp [hq] at this
-
-theorem getWindowUpdate_nopanic (c : Base) (now rtt : Int) (allow : Option Bool) :
-    (c.getWindowUpdate now rtt allow).2.2.2 = false := by
-  have hq := maybeAdjust_nopanic c now rtt allow
-  unfold Base.getWindowUpdate
-  repeat' split
-  all_goals (first | rfl | skip)
-  rename_i heq
-  rw [heq] at hq
-  simp at hq
-
-theorem ensureMin_nopanic (c : Base) (inc now : Int) (b : Bool) :
-    (Conn.ensureMinimumWindowSize c inc now (some b)).2.2 = false := by
-  have hq := fun d => askAllow_nopanic Uquic.Gen.Flowcontrol.ensureMinCallbackNilGuarded (some b) d (Or.inr (by simp))
-  unfold Conn.ensureMinimumWindowSize
-  simp only []
-  repeat' split
-  all_goals (first | rfl | skip)
-  rename_i heq
-  have := congrArg (fun t => t.2.2) heq
-  simp [hq] at this
-
-theorem stream_getWindowUpdate_nopanic (st : Stream) (c : Base) (now rtt : Int) (b : Bool) :
-    (st.getWindowUpdate c now rtt (some b)).2.2.2.2 = false := by
-  unfold Stream.getWindowUpdate
-  simp only [getWindowUpdate_nopanic, ensureMin_nopanic]
-  repeat' split
-  all_goals (first | rfl | simp_all)
 
 /-- With a non-nil callback no operation panics (with a nil callback `EnsureMinimumWindowSize`
     would call it unguarded, see `Uquic.Gen.Flowcontrol.ensureMinCallbackNilGuarded`). -/
